@@ -34,7 +34,7 @@ type Case struct {
 
 var recFn = ev.New("C04", "c04.sanitiser",
 	"templ.URL(s) must return s or the failure URL, and may return s only if an independent WHATWG scheme extractor finds no scheme or an allow-listed one; the rendered href/action must be one attribute whose decoded value is that result. "+
-		"Exhaustive: all sequences of <=L tokens over a 30-token adversarial alphabet (L=3 quick, 5 thorough) and all strings of <=7 (quick 5) characters over {a,A,:,/,\\,TAB,space,?}; random: long strings and mutated XSS vectors. "+
+		"Exhaustive: all sequences of <=L tokens over a 30-token adversarial alphabet (L=3 quick, 5 thorough) and all strings of <=7 (quick 5) characters over {a,A,:,/,\\,TAB,space,?}; random: long strings and mutated XSS vectors; stretched: every vector with a run of 1..65536 filler characters (TAB, LF, CR, blank, a, NUL, é) inserted at each of its first 13 positions. "+
 		"Non-trivial = s contains ':' or a control/whitespace character; enumerated cases are distinct by construction, random ones by s")
 
 func decide(c Case) error {
@@ -182,6 +182,43 @@ var xssVectors = []string{
 	"https://a/b:c", "mailto:a@b", "tel:+1", "ftp://h/", "ftps://h/", "a/b:c", "?a:b", "#a:b", "a:b", "livescript:x", "mocha:x", "feed:javascript:x", "view-source:x",
 	"jar:x", "blob:x", "file:///etc/passwd", "ws://x", "about:blank", "HTTP://x", "hTTps://x", "httpſ://x", "Khttp:x", ":javascript:x", "javascript:", "x:javascript:",
 	"\tjavascript:x", "\njavascript:x", "\x00javascript:x", "javascript\x00:x", "java\x00script:x", "%6aavascript:x", "javascript%3ax",
+}
+
+// TestPropStretched: every vector with a run of 1 .. 65536 filler characters (what a browser strips
+// from a URL, what it does not, and ordinary path characters) inserted at each of its first
+// positions: lengths around the powers of two a bounded scan or a fixed buffer would stop at.
+func TestPropStretched(t *testing.T) {
+	shard, shards := ev.Shard()
+	lengths := []int{1, 2, 7, 8, 9, 15, 16, 17, 31, 32, 33, 53, 54, 60, 63, 64, 65, 100, 127, 128, 129, 255, 256, 257, 511, 512, 1023, 1024, 1025, 4095, 4096, 4097, 65536}
+	fillers := []string{"\t", "\n", "\r", " ", "a", "\x00", "é"}
+	n := 0
+	for vi, v := range xssVectors {
+		if vi%shards != shard {
+			continue
+		}
+		for pos := 0; pos <= len(v) && pos <= 12; pos++ {
+			for _, f := range fillers {
+				for _, l := range lengths {
+					if l > 4097 && pos%4 != 0 {
+						continue
+					}
+					c := Case{S: ev.QStr(v[:pos] + strings.Repeat(f, l) + v[pos:])}
+					n++
+					if err := decide(c); err != nil {
+						recFn.Fail(t, c, "%v", err)
+					}
+					if n%53 == 0 {
+						if err := decideRendered(c); err != nil {
+							recFn.Fail(t, c, "%v", err)
+						}
+					}
+				}
+			}
+		}
+	}
+	recFn.Eval(n)
+	recFn.Enumerated(int64(n))
+	recFn.ClassN("stretched vectors (enumerated completely)", n)
 }
 
 var genMutated = rapid.Custom(func(t *rapid.T) string {
